@@ -715,8 +715,11 @@ func RunCompiled(inv Invocation, exePath string, errlog *log.Logger) int {
 	// intentionally pass through unaltered os.Environ here.. your magefile has
 	// to deal with it.
 	c.Env = os.Environ()
+	// always pass the effective value, the flag overrides an inherited variable
 	if inv.Verbose {
 		c.Env = append(c.Env, "MAGEFILE_VERBOSE=1")
+	} else {
+		c.Env = append(c.Env, "MAGEFILE_VERBOSE=0")
 	}
 	if inv.List {
 		c.Env = append(c.Env, "MAGEFILE_LIST=1")
